@@ -4,7 +4,7 @@ from vlib.runner import Case
 
 PID = "C10"
 PROPS = ["Props/C10.v"]
-GEN = []
+GEN = ['Env.v']
 MODEL_IS_SPEC = True
 RULE = ("filter queries whose expressions call the built-ins and 0-3 user-registered test doubles (every parameter/result type over Value/Logical/Nodes, arity 0-3; "
         "an 'echo' double returns its first argument as received, a 'constant' double ignores them) with argument expressions of every kind (literal, '@' on "
